@@ -1,4 +1,4 @@
-import JjModel.Lemmas.DiffCompact
+import JjModel.Lemmas.DiffRefine
 /-!
   C03 — Content diffs partition their inputs deterministically.
 
@@ -63,6 +63,37 @@ theorem hunk_nonempty (inputs : List Bytes) (regions : List Region) (h : Regions
       rcases hmem with rfl | hmem
       · simpa using hne
       · exact hrest hk hmem
+
+/-! ### (d) the model's own regions are well formed — end-to-end statements -/
+
+/-- **Well-formedness (d).**  Every diff built through the public constructors (`for_tokenizer`
+followed by any number of `refine_changed_regions`, any tokenizer, any comparator) has well-formed
+unchanged regions: tokens are sorted and disjoint (`tokenizer_ok`), the histogram/LCS positions
+increase strictly on both sides (`unchangedWords_ok`, via `findLcs_ok`), intersection keeps
+sub-sequences, compaction and refinement preserve the chain. -/
+theorem diff_regions_wf (inputs : List Bytes) (steps : List (Tokenizer × Compare)) (d : ContentDiff)
+    (h : build inputs steps = some d) : d.inputs = inputs ∧ RegionsWF inputs d.regions :=
+  build_wf inputs steps d h
+
+/-- **Reconstruction, end to end.**  For any inputs, tokenizer and comparison, the hunks of the diff
+partition every input: concatenating input `i`'s slices reproduces it byte for byte. -/
+theorem diff_hunks_reconstruct (inputs : List Bytes) (steps : List (Tokenizer × Compare)) (d : ContentDiff)
+    (h : build inputs steps = some d) (i : Nat) (hi : i < inputs.length) :
+    d.hunks.flatMap (fun hk => hk.2.getD i []) = inputs.getD i [] := by
+  obtain ⟨e, w⟩ := build_wf inputs steps d h
+  have := hunks_reconstruct d (by rw [e]; exact w) i (by rw [e]; exact hi)
+  rw [e] at this; exact this
+
+/-- **No empty hunk, end to end.** -/
+theorem diff_hunk_nonempty (inputs : List Bytes) (steps : List (Tokenizer × Compare)) (d : ContentDiff)
+    (h : build inputs steps = some d) : ∀ hk ∈ d.hunkRanges, isAllEmpty hk.ranges = false :=
+  hunk_nonempty inputs d.regions (build_wf inputs steps d h).2 (build_compacted inputs steps d h)
+
+/-- a diff exists for every non-empty input list (the `expect("inputs must not be empty")`) -/
+theorem build_isSome (inputs : List Bytes) (s : Tokenizer × Compare) (steps : List (Tokenizer × Compare))
+    (h : inputs ≠ []) : ∃ d, build inputs (s :: steps) = some d := by
+  obtain ⟨d0, hd0⟩ := forTokenizer_isSome inputs s.1 s.2 h
+  exact ⟨steps.foldl (fun d s => d.refine s.1 s.2) d0, by simp [build, hd0]⟩
 
 /-! ### non-vacuity -/
 
